@@ -542,7 +542,7 @@ static KSI_Signature *parse_plain(const rsig *m) {
 }
 static void part_builder(void) {
 	int nch, scen;
-	for (nch = 2; nch <= 3; nch++) for (scen = 0; scen < 4; scen++) {
+	for (nch = 2; nch <= 3; nch++) for (scen = 0; scen < 6; scen++) {
 		rs_params p, q;
 		rsig m, other;
 		KSI_Signature *src, *osrc, *out = NULL;
@@ -551,7 +551,7 @@ static void part_builder(void) {
 		unsigned char *raw = NULL;
 		size_t rl = 0, i, nc;
 		int res, r1;
-		if (!vf_case_begin("builder:chains%d:%s", nch, scen == 0 ? "complete" : scen == 1 ? "chain-missing-then-added" : scen == 2 ? "level-refused-then-closed" : "level-refused-then-foreign-calendar")) continue;
+		if (!vf_case_begin("builder:chains%d:%s", nch, scen == 0 ? "complete" : scen == 1 ? "chain-missing-then-added" : scen == 2 ? "level-refused-then-closed" : scen == 3 ? "level-refused-then-foreign-calendar" : scen == 4 ? "root-level-breaks-the-chain" : "root-level-completes-the-chain")) continue;
 		rs_default_params(&p);
 		p.nchains = nch; p.tail = 3; p.aggr_time = T_2024; p.pub_time = T_2024 + 86400 * 11 + 17;
 		for (i = 0; i < (size_t)nch; i++) { p.nlinks[i] = 2; p.chain_alg[i] = RH_SHA256; p.link_desc[i][0] = mkdesc((int)i & 1, 0, i == 0 ? 2 : 0); p.link_desc[i][1] = mkdesc(1, 0, 0); }
@@ -576,6 +576,36 @@ static void part_builder(void) {
 		if (scen == 0) {
 			res = KSI_SignatureBuilder_close(b, 0, &out);
 			if (res != KSI_OK || out == NULL) vf_fail("consistent-not-ok", "builder: a consistent signature assembled from its parts is refused by KSI_SignatureBuilder_close: 0x%x", res);
+		} else if (scen == 4) {
+			/* the parts are consistent as they are; closing with root level 3 adds 3 to the first link's level correction, after which the
+			 * first chain no longer leads to the second one: what is judged is the signature that would be handed out */
+			if (KSI_SignatureBuilder_setCalendarHashChain(b, src->calendarChain) != KSI_OK || KSI_SignatureBuilder_setCalendarAuthRecord(b, src->calendarAuthRec) != KSI_OK) vf_harness_error("calendar parts");
+			res = KSI_SignatureBuilder_close(b, 3, &out);
+			if (res == KSI_OK || out != NULL) vf_fail("inconsistent-ok", "builder: close with root level 3 succeeded although the level added to the first link breaks the chain (result: 0x%x)", res);
+			vf_outcome("builder:root-level-breaks:%s", res == KSI_OK ? "OK" : "refused");
+		} else if (scen == 5) {
+			/* the mirror image: the first chain is that of a signature whose first link's correction is 3 less, all other parts come from the
+			 * signature with the full correction; closing with root level 3 yields exactly that signature, which is consistent */
+			rs_params p5 = p;
+			rsig m5;
+			KSI_Signature *s5;
+			KSI_SignatureBuilder *b5 = NULL;
+			size_t k;
+			p5.link_desc[0][0] = mkdesc(0, 0, 5);
+			rs_build(&m5, &p5);
+			s5 = parse_plain(&m5);
+			vb_reset(&want); rs_serialize(&m5, &want);
+			if (KSI_SignatureBuilder_open(ctx, &b5) != KSI_OK) vf_harness_error("KSI_SignatureBuilder_open");
+			for (k = 0; k < nc; k++) {
+				KSI_AggregationHashChain *ch = NULL;
+				KSI_AggregationHashChainList_elementAt(k == 0 ? src->aggregationChainList : s5->aggregationChainList, k, &ch);
+				if (KSI_SignatureBuilder_addAggregationChain(b5, ch) != KSI_OK) vf_harness_error("addAggregationChain");
+			}
+			if (KSI_SignatureBuilder_setCalendarHashChain(b5, s5->calendarChain) != KSI_OK || KSI_SignatureBuilder_setCalendarAuthRecord(b5, s5->calendarAuthRec) != KSI_OK) vf_harness_error("calendar parts");
+			res = KSI_SignatureBuilder_close(b5, 3, &out);
+			if (res != KSI_OK || out == NULL) vf_fail("consistent-not-ok", "builder: close with root level 3 refused (0x%x) although the level completes the first link's correction and the result is consistent", res);
+			KSI_SignatureBuilder_free(b5);
+			KSI_Signature_free(s5);
 		} else if (scen == 1) {
 			KSI_AggregationHashChain *top = NULL;
 			r1 = KSI_SignatureBuilder_close(b, 0, &out);
